@@ -56,6 +56,14 @@ inline void run_steps(event::Loop *loop, const std::vector<std::function<void()>
   loop->runLoop(event::Loop::Mode::kForever);
 }
 
+// deadline of this process: VERIF_DEADLINE_S from its own start, but never past the check-wide wall-clock deadline
+// C13_DEADLINE_EPOCH set by check.py (processes that start late still stop with the others)
+inline double deadline(double dflt_s) {
+  double d = hx::deadline_from_env(dflt_s); const char *e = getenv("C13_DEADLINE_EPOCH");
+  if (e) { double rem = atof(e) - (double)time(nullptr); d = std::min(d, hx::now_s() + std::max(rem, 2.0)); }
+  return d;
+}
+
 inline std::string esc(const std::string &s) {
   std::string o; char b[8];
   for (unsigned char c : s) {
